@@ -6,7 +6,7 @@
    A case is a history over two repositories A and B (B is the source/target of butler transfers) with the
    implementation's observations after every step; `chk_case` replays it on the model.  No proofs here. *)
 From Coq Require Import String Ascii List Bool ZArith NArith.
-From V Require Import Model.Template Model.Datastore Gen.TemplateGen.
+From V Require Import Model.Template Model.Datastore Gen.TemplateGen Gen.IngestGuardGen.
 Import ListNotations.
 Open Scope string_scope.
 
@@ -35,7 +35,13 @@ Definition c_ext (f : N) : string :=
 Definition cstate := state cobj cbytes.
 Definition cop := op cobj cbytes.
 
-Definition cstep (tbl : list (N * N * Z)) := step cobj cbytes (c_enc tbl) c_dec c_size c_path_of c_ext.
+(* the operation semantics compared with the implementation: the repaired `step` when the REGENERATED flag says that
+   FileDatastore._finishIngest refuses held datasets before transferring anything (commit 2da36a1), the variant with
+   the old destructive re-ingest otherwise (then refused_noop_impl in Props/C01.v cannot be proved) *)
+Definition cstep_fixed (tbl : list (N * N * Z)) := step cobj cbytes (c_enc tbl) c_dec c_size c_path_of c_ext.
+Definition cstep_unfixed (tbl : list (N * N * Z)) := step_unfixed cobj cbytes (c_enc tbl) c_dec c_size c_path_of c_ext.
+Definition cstep (tbl : list (N * N * Z)) : cfg -> cstate -> cop -> cstate * outcome :=
+  if GEN_INGEST_REFUSES_HELD then cstep_fixed tbl else cstep_unfixed tbl.
 Definition cget := get cobj cbytes c_dec c_size.
 Definition cget_file := get_file cobj cbytes c_dec c_size.
 
